@@ -47,8 +47,11 @@ def legal_menu(st, o=DEFAULT_OPTS):
             for i in range(n):
                 if st.can_post_blind_or_straddle(i):
                     add((('post_blind_or_straddle', i), 1))
+    mix = o['deal'] == 'mix'
     if st.can_burn_card():
         add((('burn_card',), 0))
+        if mix and st.can_burn_card('??'):
+            add((('burn_card', '??'), 1))
     if st.can_deal_hole():
         add((('deal_hole',), 0))
         if o['deal'] == 'rich':
@@ -60,8 +63,21 @@ def legal_menu(st, o=DEFAULT_OPTS):
             for i in range(n):
                 if i != d and pend[i]:
                     add((('deal_hole', 1, i), 1))
+        if mix:
+            if st.can_deal_hole('??'):
+                add((('deal_hole', '??'), 1))
+            if len(st.deck_cards) > 1:
+                t = card_text([st.deck_cards[-1]])
+                if st.can_deal_hole(t):
+                    add((('deal_hole', t), 1))
     if st.can_deal_board():
         add((('deal_board',), 0))
+        if mix:
+            c = st.board_dealing_count
+            if c and len(st.deck_cards) > c:
+                t = card_text(list(st.deck_cards)[-c:])
+                if st.can_deal_board(t):
+                    add((('deal_board', t), 1))
         if o['deal'] == 'rich':
             c = st.board_dealing_count
             if c and c > 1:
@@ -69,15 +85,17 @@ def legal_menu(st, o=DEFAULT_OPTS):
     if st.can_stand_pat_or_discard():
         i = st.stander_pat_or_discarder_index
         hc = st.hole_cards[i]
+        dd = o.get('discard_default', 'none')
         for mode in o['discards']:
+            cost = 0 if mode == dd else 1
             if mode == 'none':
-                add((('stand_pat_or_discard',), 0))
+                add((('stand_pat_or_discard',), cost))
             elif mode == 'first' and hc:
-                add((('stand_pat_or_discard', card_text(hc[:1])), 1))
+                add((('stand_pat_or_discard', card_text(hc[:1])), cost))
             elif mode == 'two' and len(hc) > 1:
-                add((('stand_pat_or_discard', card_text(hc[:2])), 1))
+                add((('stand_pat_or_discard', card_text(hc[:2])), cost))
             elif mode == 'all' and len(hc) > 2:
-                add((('stand_pat_or_discard', card_text(hc)), 1))
+                add((('stand_pat_or_discard', card_text(hc)), cost))
     if st.actor_indices:
         if st.can_check_or_call():
             add((('check_or_call',), 0))
@@ -110,6 +128,15 @@ def legal_menu(st, o=DEFAULT_OPTS):
     if st.can_show_or_muck_hole_cards():
         for v in o['show']:
             add((('show_or_muck_hole_cards', v), 0 if v is None else 1))
+    elif mix and st.showdown_indices and st.street is not None:
+        i = st.showdown_indices[0]
+        k = len(st.hole_cards[i])
+        if len(st.deck_cards) >= k:
+            t = card_text(list(st.deck_cards)[-k:])
+            if st.can_show_or_muck_hole_cards(t):
+                add((('show_or_muck_hole_cards', t), 1))
+        if st.can_show_or_muck_hole_cards(False):
+            add((('show_or_muck_hole_cards', False), 1))
     if st.can_kill_hand():
         add((('kill_hand',), 0))
         if o['players']:
